@@ -28,4 +28,21 @@ theorem server_helpers_as_modelled :
   refine ⟨?_, ?_, ?_, ?_⟩ <;> rfl
 
 
+/-- today's Subprotocols, Upgrader.returnError and IsWebSocketUpgrade are the modelled ones -/
+theorem request_helpers_as_modelled :
+    Gen.stmts_Subprotocols =
+      ["h := strings.TrimSpace(r.Header.Get(\"Sec-Websocket-Protocol\"))",
+        "if h == \"\" { return nil }",
+        "protocols := strings.Split(h, \",\")",
+        "for i := range protocols { protocols[i] = strings.TrimSpace(protocols[i]) }",
+        "return protocols"] ∧
+    Gen.stmts_returnError =
+      ["err := HandshakeError{reason}",
+        "if u.Error != nil { u.Error(w, r, status, err) } else { w.Header().Set(\"Sec-Websocket-Version\", \"13\") http.Error(w, http.StatusText(status), status) }",
+        "return nil, err"] ∧
+    Gen.stmts_IsWebSocketUpgrade =
+      ["return tokenListContainsValue(r.Header, \"Connection\", \"upgrade\") && tokenListContainsValue(r.Header, \"Upgrade\", \"websocket\")"] := by
+  refine ⟨?_, ?_, ?_⟩ <;> rfl
+
+
 end WS.Props.C12Tie
